@@ -15,7 +15,7 @@ def natural_static(prog, uid):
     """Outcome of a fault-free program: ('ret', value) | ('exc', name, args) | ('unpicklable',) | ('other',)."""
     for ins in prog:
         op = ins[0]
-        if op in ('tick', 'sleep', 'rss'):
+        if op in ('tick', 'sleep', 'rss', 'until'):
             continue
         if op == 'ret':
             return ('ret', ('v', uid, ins[1]))
@@ -79,17 +79,6 @@ def diagnose(W):
     k = W.k
     pc = W.case['pool']
     live = [w for w in W.workers.values() if not w['proc'].dead]
-    if W.closed_at is not None and pc.get('maxtasksperchild'):
-        # workers that reached their quota and were never replaced because close() stops the supervisor
-        # (they exited after close(), or shortly before it and the next supervision pass never came)
-        started_after_close = [w for w in W.workers.values() if w['start_step'] > W.closed_at[0]]
-        recycled = [w for w in W.workers.values() if w['proc'].dead and
-                    w['proc'].status == ('exit', EX_RECYCLE)]
-        live_n = W.marks.get('live_before_terminate', len(live))
-        th_stuck = any(a.kind == 'TaskHandler' and a.state != 'done' for a in k.actors)
-        queued = len(W.in_pipe.buf) > 0 or (W.pool is not None and W.pool._taskqueue.qsize() > 0) or th_stuck
-        if recycled and live_n < pc['processes'] and queued:
-            return 'recycled-after-close-not-replaced'
     if W.marks.get('task_stream_desync'):
         return 'task-stream-desynchronised-by-signal-in-half-read-task'
     if W.marks.get('task_taken_not_announced'):
@@ -100,6 +89,18 @@ def diagnose(W):
             # the worker was unwound by a termination signal (shrink(), operator) in the middle of writing a
             # message: the parent reads the rest of the stream from a wrong offset
             return TRUNCATED
+    if W.closed_at is not None and pc.get('maxtasksperchild'):
+        # workers that reached their quota and were never replaced because close() stops the supervisor
+        # (they exited after close(), or shortly before it and the next supervision pass never came)
+        started_after_close = [w for w in W.workers.values() if w['start_step'] > W.closed_at[0]]
+        recycled = [w for w in W.workers.values() if w['proc'].dead and
+                    w['proc'].status == ('exit', EX_RECYCLE) and
+                    (w['proc'].death_time is None or w['proc'].death_time >= W.closed_at[1] - 0.85)]
+        live_n = W.marks.get('live_before_terminate', len(live))
+        th_stuck = any(a.kind == 'TaskHandler' and a.state != 'done' for a in k.actors)
+        queued = len(W.in_pipe.buf) > 0 or (W.pool is not None and W.pool._taskqueue.qsize() > 0) or th_stuck
+        if recycled and live_n < pc['processes'] and queued:
+            return 'recycled-after-close-not-replaced'
     # a queue lock still held by a process that is dead?
     locks = {getattr(W, 'outq_wlock_id', None): 'result-queue-write-lock',
              getattr(W, 'inq_rlock_id', None): 'task-queue-read-lock'}
@@ -296,6 +297,14 @@ def check_failure(W, rec, tname, args, exc, einfo, ex, owners):
             W.bad('C01.d', 'lost-without-dead-owner:%s:%s' % (rec.kind, what), det)
             W.bad('C04.b', 'lost-without-dead-owner:%s:%s' % (rec.kind, what), det)
             W.bad('C09.j', 'job-failed-by-recycling:%s' % rec.kind, det) if finished_dead else None
+        elif tname == 'Terminated':
+            # only the job whose worker terminate_job() was aimed at is "terminated"; a job whose worker died
+            # on its own at about the same time is "lost" (and gets the lost-worker grace period)
+            targeted = set(r.opts.get('terminate_job_pid') for r in W.jobs.values()) - {None}
+            if not any(p in targeted for _i, p, _st in dead):
+                W.bad('C01.d', 'terminated-but-worker-not-targeted:%s' % rec.kind,
+                      'job %r failed with Terminated; its worker(s) %r died on their own, terminate_job() was aimed '
+                      'at %r' % (uid, [(p, st) for _i, p, st in dead], sorted(targeted)))
         elif tname == 'WorkerLostError':
             want = [human_status_of(st) for _i, _p, st in dead]
             msg = str(args[0]) if args else ''
@@ -371,6 +380,38 @@ def judge_imap(W, rec, ex, owners, cause):
         if dead:
             W.bad('C04.e', 'loss-not-reported:%s' % rec.kind,
                   'job %r: a worker died inside an item and the iterator never reported it' % rec.uid)
+    # one outcome per part: when the iterator has ended, every part whose worker wrote its result was
+    # delivered, and every part lost with its worker was reported exactly once (never another part's)
+    if rec.observed and rec.observed[-1][1] == 'stop' and W.case['prop'] in ('C04', 'C01', 'C02') and \
+            not any(tc['t0'][0] <= rec.observed[-1][0] for tc in W.term_calls) and k.host_exit is None:
+        cs = rec.chunksize or 1
+        nparts = (len(rec.items) + cs - 1) // cs
+        lost_errs = 0
+        for o in rec.observed:
+            if o[1] == 'err':
+                e = o[2]
+                inner = e.args[0] if getattr(e, 'args', None) else None
+                if exc_of(inner)[0] in ('WorkerLostError', 'Terminated'):
+                    lost_errs += 1
+        done_parts = [i for i, ents in owners.items() if any(en[2] is not None for en in ents)]
+        lost_parts = [i for i, ents in owners.items() if i not in done_parts and
+                      all(W.workers.get(en[0]) and W.workers[en[0]]['proc'].dead for en in ents)]
+        if lost_errs > len(lost_parts) + (nparts - len(owners)):
+            W.bad('C04.i', 'loss-reported-more-than-once:%s' % rec.kind,
+                  'job %r: %d lost-worker failures delivered, %d part(s) were lost with their worker (%d parts)'
+                  % (rec.uid, lost_errs, len(lost_parts), nparts))
+        got = [o[2] for o in rec.observed if o[1] == 'ok']
+        for i in done_parts:
+            part = rec.items[i * cs:(i + 1) * cs]
+            if not all(natural_static(it[1], it[0])[0] == 'ret' for it in part):
+                continue        # a failing input fails its whole chunk
+            for it in part:
+                runs = [d for d in ex.get(it[0], []) if d['has_ret']]
+                if runs and runs[-1]['ret'] not in got:
+                    W.bad('C04.i', 'finished-part-not-delivered:%s' % rec.kind,
+                          'job %r: input %r was executed and its result written (part %d), the iterator ended '
+                          'without delivering it' % (rec.uid, it[0], i))
+                    break
     for o in rec.observed:
         if o[1] == 'err':
             e = o[2]
@@ -467,6 +508,10 @@ def judge_C02(W, ex):
         body = [g for g in got if g[0] != 'stop']
         stopped = bool(got) and got[-1][0] == 'stop'
         shape = 'chunked' if cs > 1 else 'cs1'
+        if len(body) == len(exp_events) and not stopped and any(o[1] == 'timeout' for o in rec.observed):
+            # everything was delivered (or there was nothing to deliver) and the iterator never finishes
+            bad('C02.i', 'iterator-never-finishes:%s:%s' % (rec.kind, 'empty-input' if not exp_events else shape),
+                'job %r: %d of %d events delivered, then no StopIteration' % (uid, len(body), len(exp_events)))
         if rec.kind == 'imap':
             if body != exp_events[:len(body)]:
                 bad('C02.i', 'imap-order-or-value:%s' % shape,
